@@ -26,6 +26,9 @@ import vlib
 import mpi_algebra_common as A
 
 LEVEL = "exploration"
+META = {"text": "TLC evaluates the element-wise definitions of the 14 predefined operators and the table of allowed (operator, datatype class) pairs of MPI-3.1 5.9.2/5.9.4/11.3.4 (spec/mpi/MpiOp.tla; bitwise operators on two's complement through the Bitwise module, MAXLOC/MINLOC with lowest index on ties, complex SUM/PROD) for every (operator, datatype) of a 14 x 43 table over all pairs of characteristic values, and for seeded random vectors through MPI_Reduce_local, MPI_Allreduce on 1..6 ranks and RMA accumulate (REPLACE, NO_OP); SMPI's results on every rank are compared with TLC's, and pairs outside the table must be rejected. Exploration level: values are sampled (extremes + random), the (operator, datatype) table itself is covered completely.",
+        "note": "Trusted: TLC, MpiOp.tla (its algebraic laws are checked by TLC on the generated values), the driver's conversion between integers and typed buffers. Values stay within signed 32 bits (TLC): 64-bit extremes and unsigned 32-bit values above 2^31-1 are out of reach; floating-point types carry exactly representable integers. Pairs MPI does not list but that are commonly accepted (MPI_CHAR arithmetic, logical operators on non-integer classes) are left open. Known finding: LAND/LOR/LXOR on MPI_CXX_BOOL abort.",
+        "technique": "TLC as case and oracle generator (exhaustive table + -simulate) for MpiOp, replay into SMPI through harness/mpi_algebra.cpp, comparison in Python"}
 DRIVERS = A.DRIVERS
 OPS = ["MAX", "MIN", "SUM", "PROD", "LAND", "LOR", "LXOR", "BAND", "BOR", "BXOR", "MAXLOC", "MINLOC", "REPLACE", "NO_OP"]
 TYPES = ["CHAR", "SIGNED_CHAR", "UNSIGNED_CHAR", "SHORT", "UNSIGNED_SHORT", "INT", "UNSIGNED", "LONG", "UNSIGNED_LONG", "LONG_LONG",
